@@ -53,6 +53,16 @@ def handle (j : Json) : Json :=
           ("predefined", jnat r.1.predefined), ("dyn", jint r.1.dynamicParamsDepth),
           ("pushed", jnat r.1.pushed.length),
           ("queries", jarr (r.2.map fun q => jarr [jbool q.1, jarr (q.2.map jbool)]))]
+  | "memo" =>
+    -- a memoised function producing 0 … n-1, read by successive consumers that take `reads[i]` elements
+    let xs := List.range (nat j "n")
+    let st : Stored Nat := match str j "kind" with
+      | "plain" => .oneShot xs
+      | "generator_cache" => .replaying [] xs
+      | _ => .materialised xs
+    jarr ((st.reads (nats j "reads")).map fun l => jarr (l.map jnat))
+  | "stack" =>
+    jbool (entryReplayable ("", strs j "decorators", bool j "one_shot"))
   | op => jobj [("error", jstr ("unknown op " ++ op))]
 
 def main : IO Unit := Proto.run handle
